@@ -50,6 +50,10 @@ ob("C18", "O-C18.iter.step", BB + "c18_iter_step", "iterator step: lowest member
    ["BitBoardIter::next", "BitBoardIter::len", "BitBoardIter::size_hint", "BitBoard::iter", "BitBoard::into_iter", "BitBoard::next_square"], pkg=T, timeout=300)
 ob("C18", "O-C18.subsets.step", BB + "c18_subsets_step", "subset iterator step: returns current subset, advances to the least greater subset, finishes after the full set",
    ["BitBoardSubsetIter::next", "BitBoard::iter_subsets"], pkg=T, timeout=600)
+ob("C18", "O-C18.subsets.prefix4", BB + "c18_subsets_prefix4", "public API only: the first four outputs of iter_subsets() are the empty set and the successive numeric successors among the subsets; the iterator ends exactly after the full set (every set, incl. FULL)",
+   ["BitBoard::iter_subsets", "BitBoardSubsetIter::next"], pkg=T, timeout=600, bounded="first 4 outputs (the unbounded statement is O-C18.subsets.step + induction)")
+ob("C18", "O-C18.iter.prefix3", BB + "c18_iter_prefix3", "public API only: the first three outputs of iteration are the lowest members in ascending order with exact remaining length",
+   ["BitBoard::into_iter", "BitBoardIter::next", "BitBoardIter::len"], pkg=T, timeout=600, bounded="first 3 outputs (the unbounded statement is O-C18.iter.step + induction)")
 ob("C18", "O-C18.flips", BB + "c18_flips", "flip_ranks / flip_files move each member to the mirrored square and are involutions",
    ["BitBoard::flip_ranks", "BitBoard::flip_files"], pkg=T, timeout=300)
 ob("C18", "O-C18.collect.b4", BB + "c18_collect_bounded4", "FromIterator<Square>: collecting up to 4 squares builds their set",
@@ -278,6 +282,9 @@ _BOARD = ["B1 lookups (get_rook_moves, get_bishop_moves, rays, between, line, kn
           "B2 bitboard for-loops are replaced by loop-invariant VCs (init / arbitrary iteration / exit) generated by tools/extract.py from tools/loops.json; the modifies-scan of each body is syntactic",
           "B3 the symbolic board is any board with spec_accept(position) and derived fields by definition (INV); INV is inductive (O-C06.inv-preserved.*, O-C14.null) and established by the constructors (O-C09.build)",
           "B4 CBMC pointer-validity checks and Kani reachability covers are off for these harnesses (safe Rust); panic, overflow, bounds and unwinding checks are on"]
+# obligations whose harness inspects private iterator state (marked <private-state> in the harness file): if
+# the harness no longer compiles against the tree they are reported undecided and the rest still runs
+PRIVATE_STATE = {"O-C18.iter.step", "O-C18.subsets.step"}
 ASSUME = {p: _BOARD for p in ("C01", "C02", "C03", "C04", "C06", "C09", "C10", "C12", "C13", "C14", "C16", "C20")}
 ASSUME["C10"] = _BOARD + ["H1 quick tier: board-level hash obligations see the four writers through their contracts (feature accounting); applicable only while no other function of zobrist.rs writes the hash field (scanned every run), otherwise the real-arithmetic obligations run",
                            "H2 L-lin: XOR linearity connects the real-arithmetic delta obligations to hash == spec_hash(position)"]
